@@ -213,6 +213,160 @@ theorem lweSwitchingKey_wellformed (c : KeyCtx bits b n size kxe 1 H E)
         (embSk_scalarOk n skIn hl1 hin) (fun s hs => ⟨(embSk_scalarOk n skOut hl2 hout s hs).1, houtn s hs⟩) xa es hes cells xa' es' h
       exact ⟨hl1, hl2, h1, h3⟩
 
+/-! ### tensor secret -/
+
+/-- the pairs `(i, j)`, `i ≤ j < rank`, in the order of `glwe_secret_tensor_prepare` (row-major upper triangle) -/
+def tensorPairs (rank : Nat) : List (Nat × Nat) :=
+  (List.range rank).flatMap (fun i => ((List.range rank).drop i).map (fun j => (i, j)))
+
+/-- one entry of the tensor secret: the product normalised to one limb of radix `2^17` -/
+theorem tensorSecret_entries {bits n : Nat} {Hp : Int} (hbits : bits = 64 ∨ bits = 128) (hr : HeadRoom bits 17 0 Hp)
+    (sk : List Poly) (hprod : ∀ i j, ∀ x ∈ Hal.negMul (sk.getD j []) (sk.getD i []), |x| ≤ Hp)
+    (pts : List Poly) (h : Core.tensorSecret bits n sk = some pts) :
+    pts.length = (tensorPairs sk.length).length ∧
+    ∀ (k : Nat) (ij : Nat × Nat), (tensorPairs sk.length)[k]? = some ij →
+      ScalarOk n (pts.getD k []) ∧
+      ((∀ x ∈ Hal.negMul (sk.getD ij.2 []) (sk.getD ij.1 []), |x| < 2 ^ 16) → (Hal.negMul (sk.getD ij.2 []) (sk.getD ij.1 [])).length = n →
+        pts.getD k [] = Hal.negMul (sk.getD ij.2 []) (sk.getD ij.1 [])) := by
+  obtain ⟨hl, hg⟩ := mapM_some_get _ _ pts h
+  refine ⟨hl, ?_⟩
+  intro k ij hk
+  obtain ⟨y, hy1, hy2⟩ := hg k ij hk
+  rw [bigNormalize_eq bits 17 1 n hbits] at hy1
+  simp only [Option.map_some, Option.some.injEq] at hy1
+  have hpk : pts.getD k [] = y := by rw [List.getD_eq_getElem?_getD, hy2]; rfl
+  rw [hpk, ← hy1]
+  set P := Hal.negMul (sk.getD ij.2 []) (sk.getD ij.1 []) with hP
+  have hin : ∀ t, ∀ x ∈ coefAt [P] t, |x| ≤ Hp := by
+    intro t x hx
+    simp only [coefAt, List.map_cons, List.map_nil, List.mem_singleton] at hx
+    rw [hx, List.getD_eq_getElem?_getD]
+    cases hq : P[t]? with
+    | none => simpa using hr.hH0
+    | some v => exact hprod ij.1 ij.2 v (List.mem_of_getElem? hq)
+  have hentry : ∀ t, t < n → ((mapCoefs n 1 (fun i => normOut bits 17 1 (coefAt [P] i))).getD 0 []).getD t 0
+      = (normOut bits 17 1 (coefAt [P] t)).getD 0 0 := by
+    intro t ht
+    simp [mapCoefs, ofCoefs, List.getD_eq_getElem?_getD, ht]
+  have hlen : ((mapCoefs n 1 (fun i => normOut bits 17 1 (coefAt [P] i))).getD 0 []).length = n := by
+    simp [mapCoefs, ofCoefs]
+  refine ⟨⟨hlen, ?_⟩, ?_⟩
+  · intro x hx
+    obtain ⟨t, ht, rfl⟩ := List.getElem_of_mem hx
+    rw [hlen] at ht
+    have e := hentry t ht
+    rw [List.getD_eq_getElem?_getD, List.getElem?_eq_getElem (by rw [hlen]; exact ht)] at e
+    simp only [Option.getD_some] at e
+    rw [e]
+    obtain ⟨o1, o2, _, _⟩ := normOut_spec hbits hr (by norm_num) 1 (coefAt [P] t) (hin t)
+    have hm : (normOut bits 17 1 (coefAt [P] t)).getD 0 0 ∈ normOut bits 17 1 (coefAt [P] t) := by
+      rw [List.getD_eq_getElem?_getD, List.getElem?_eq_getElem (by rw [o1]; norm_num)]; exact List.getElem_mem _
+    have hb := o2 _ hm
+    unfold Balanced at hb
+    rw [abs_le]
+    norm_num at hb ⊢
+    constructor <;> linarith [hb.1, hb.2]
+  · intro hsmall hPl
+    apply List.ext_getElem (by rw [hlen, hPl])
+    intro t h1 h2
+    rw [hlen] at h1
+    have e := hentry t h1
+    rw [List.getD_eq_getElem?_getD, List.getElem?_eq_getElem (by rw [hlen]; exact h1)] at e
+    simp only [Option.getD_some] at e
+    rw [e]
+    obtain ⟨o1, o2, _, o4⟩ := normOut_spec hbits hr (by norm_num) 1 (coefAt [P] t) (hin t)
+    have hc : coefAt [P] t = [P[t]] := by
+      simp [coefAt, List.getD_eq_getElem?_getD, List.getElem?_eq_getElem h2]
+    obtain ⟨d, hd⟩ : ∃ d, normOut bits 17 1 (coefAt [P] t) = [d] := by
+      match hno : normOut bits 17 1 (coefAt [P] t), o1 with
+      | [d], _ => exact ⟨d, rfl⟩
+    have hbal := o2 d (by rw [hd]; simp)
+    obtain ⟨kk, hkk⟩ := o4 (by rw [hc]; simp)
+    rw [hd, hc] at hkk
+    simp only [valI, List.length_cons, List.length_nil, mul_zero, pow_zero, mul_one, List.length_singleton, zero_mul, zero_add] at hkk
+    rw [hd]
+    simp only [List.getD_cons_zero]
+    have hx := hsmall P[t] (List.getElem_mem _)
+    unfold Balanced at hbal
+    rw [abs_lt] at hx
+    norm_num at hkk hbal hx ⊢
+    omega
+
+/-! ### keys made of several matrices: blind-rotation key, GGLWE→GGSW key -/
+
+/-- **`blind_rotation_key_encrypt_sk`** (standard and block-binary): the `i`-th element is a well-formed GGSW of the constant
+polynomial `sk_lwe[i]` under `sk_glwe`, with the errors `i·dnum·(rank+1) …` of the running error source — `hkey` of `C04.ep_decrypts`
+for every CMUX of `C14`/`C15`'s blind rotation (`m2 = ι [sk_lwe[i], 0, …]`, `σ_0 = 1`, `σ_{c+1} = ι s_c`) -/
+theorem blindRotationKey_wellformed (c : KeyCtx bits b n size kxe rank H E)
+    (tmp0 : Col) (htl : tmp0.length = size) (htw : WF n tmp0)
+    (sk : List Poly) (hsk : ∀ s ∈ sk, norm1 s * 2 ^ (b - 1) ≤ H) :
+    ∀ (skLwe : List Int) (hlwe : ∀ x ∈ skLwe, |x| ≤ 2 ^ 62) (xa : List Nat) (es : List Poly)
+      (hes : ErrOk n E es (skLwe.length * (dnum * (rank + 1))))
+      (out : List (List (Nat × List Col))) (xa' : List Nat) (es' : List Poly),
+      Core.brkStdLoop tmp0 bits b n size kxe rank dnum sk skLwe xa es = some (out, xa', es') →
+      out.length = skLwe.length ∧ es' = es.drop (skLwe.length * (dnum * (rank + 1))) ∧
+      ∀ (i : Nat) (si : Int), skLwe[i]? = some si → ∃ cells, out[i]? = some cells ∧
+        KeyWellFormed n b 1 size kxe dnum (rank + 1) (Core.keyMat n dnum (rank + 1) (rank + 1) size cells) sk
+          (fun j => (if j = 0 then 1 else ι n (sk.getD (j - 1) [])) * ι n (si :: List.replicate (n - 1) 0))
+          (fun j r => es.getD (i * (dnum * (rank + 1)) + (r * (rank + 1) + j)) []) := by
+  intro skLwe
+  induction skLwe with
+  | nil =>
+    intro _ xa es _ out xa' es' h
+    simp only [Core.brkStdLoop, Option.some.injEq, Prod.mk.injEq] at h
+    obtain ⟨rfl, _, rfl⟩ := h
+    simp
+  | cons s0 rest ih =>
+    intro hlwe xa es hes out xa' es' h
+    unfold Core.brkStdLoop at h
+    cases hg : Core.ggswEncryptSkT tmp0 bits b n size kxe rank dnum 1 (s0 :: List.replicate (n - 1) 0) sk xa es with
+    | none => simp [hg] at h
+    | some q =>
+      obtain ⟨cells, xa1, es1⟩ := q
+      simp only [hg] at h
+      cases hr : Core.brkStdLoop tmp0 bits b n size kxe rank dnum sk rest xa1 es1 with
+      | none => simp [hr] at h
+      | some q2 =>
+        obtain ⟨out2, xa2, es2⟩ := q2
+        simp only [hr, Option.some.injEq, Prod.mk.injEq] at h
+        obtain ⟨rfl, rfl, rfl⟩ := h
+        have hC : dnum * (rank + 1) ≤ (s0 :: rest).length * (dnum * (rank + 1)) := by
+          simp only [List.length_cons]; rw [Nat.succ_mul]; omega
+        have hpt : ScalarOk n (s0 :: List.replicate (n - 1) 0) := by
+          refine ⟨by simp; have := c.hn; omega, ?_⟩
+          intro x hx
+          rcases List.mem_cons.mp hx with rfl | hx
+          · exact hlwe _ (by simp)
+          · rw [List.mem_replicate] at hx; rw [hx.2]; norm_num
+        obtain ⟨hd1, hw1⟩ := ggswEncryptSk_wellformed c (le_refl 1) tmp0 htl htw sk hsk _ hpt xa es
+          (fun k hk => hes k (by omega)) cells xa1 es1 hg
+        obtain ⟨i1, i2, i3⟩ := ih (fun x hx => hlwe x (by simp [hx])) xa1 es1 (by
+          intro k hk
+          rw [hd1]
+          have := hes (dnum * (rank + 1) + k) (by simp only [List.length_cons]; rw [Nat.succ_mul]; omega)
+          simpa [List.getD_eq_getElem?_getD, List.getElem?_drop] using this) out2 xa2 es2 hr
+        refine ⟨by simp [i1], ?_, ?_⟩
+        · rw [i2, hd1, List.drop_drop]; congr 1; simp only [List.length_cons]; rw [Nat.succ_mul]; omega
+        · intro i si hi
+          cases i with
+          | zero =>
+            simp only [List.getElem?_cons_zero, Option.some.injEq] at hi
+            subst hi
+            refine ⟨cells, by simp, ?_⟩
+            simpa using hw1
+          | succ j =>
+            simp only [List.getElem?_cons_succ] at hi
+            obtain ⟨cs, h1, h2⟩ := i3 j si hi
+            refine ⟨cs, by simpa using h1, ?_⟩
+            have e : ∀ (jj r : Nat), es1.getD (j * (dnum * (rank + 1)) + (r * (rank + 1) + jj)) []
+                = es.getD ((j + 1) * (dnum * (rank + 1)) + (r * (rank + 1) + jj)) [] := by
+              intro jj r
+              rw [hd1]
+              simp only [List.getD_eq_getElem?_getD, List.getElem?_drop]
+              congr 2
+              rw [Nat.succ_mul]; omega
+            simpa only [e] using h2
+
 end
 
 end CoreEnc
